@@ -354,7 +354,8 @@ Inductive step_shape (s s' : state) : event -> Prop :=
     starts s' = starts s -> nextID s' = nextID s -> clk s' = t ->
     outstanding s' = outstanding s -> ctxs s' = ctxs s ->
     step_shape s s' (Removed t id)
-| SSame ev : (ev = Snapshot \/ ev = EntriesIdle \/ ev = StartNoop \/ ev = CtxPoll) -> s' = s ->
+| SSame ev : (ev = Snapshot \/ ev = EntriesIdle \/ ev = StartNoop \/ ev = CtxPoll \/
+              (exists id, ev = RemoveRet id) \/ ev = StopRet) -> s' = s ->
     step_shape s s' ev
 | SStop : running s = true -> running s' = false -> timer s' = None ->
     entries s' = entries s -> starts s' = starts s -> nextID s' = nextID s -> clk s' = clk s ->
@@ -407,13 +408,13 @@ Proof.
     + rewrite map_length. reflexivity.
   - (* Added *) inversion H; subst; clear H. split; [|apply arm_ok]. apply SAdded; solve [reflexivity|exact Hr].
   - (* Removed *) inversion H; subst; clear H. split; [|apply arm_ok]. apply SRemoved; solve [reflexivity|exact Hr].
-  - (* Snapshot *) inversion H; subst; clear H. split; [|exact I]. apply SSame; auto.
+  - (* Snapshot *) inversion H; subst; clear H. split; [|exact I]. apply SSame; auto 10.
   - (* Stop *) inversion H; subst; clear H. split; [|exact I]. apply SStop; solve [reflexivity|exact Hr].
   - (* ScheduleIdle *) inversion H; subst; clear H. split; [|exact I]. apply SSchedIdle; solve [reflexivity|exact Hr].
   - (* RemoveIdle *) inversion H; subst; clear H. split; [|exact I]. apply SRemIdle; solve [reflexivity|exact Hr].
-  - (* EntriesIdle *) inversion H; subst; clear H. split; [|exact I]. apply SSame; auto.
+  - (* EntriesIdle *) inversion H; subst; clear H. split; [|exact I]. apply SSame; auto 10.
   - (* StopIdle *) inversion H; subst; clear H. split; [|exact I]. apply SStopIdle; solve [reflexivity|exact Hr].
-  - (* StartNoop *) inversion H; subst; clear H. split; [|exact I]. apply SSame; auto.
+  - (* StartNoop *) inversion H; subst; clear H. split; [|exact I]. apply SSame; auto 10.
   - (* JobRet, running *)
     destruct (outstanding s <=? 0) eqn:Ho; [discriminate H|]. apply Z.leb_gt in Ho.
     inversion H; subst; clear H. split; [|exact I]. apply SJobRet; try reflexivity; try exact Ho.
@@ -422,12 +423,18 @@ Proof.
     destruct (outstanding s <=? 0) eqn:Ho; [discriminate H|]. apply Z.leb_gt in Ho.
     inversion H; subst; clear H. split; [|exact I]. apply SJobRet; try reflexivity; try exact Ho.
     cbn [running]. symmetry. exact Hr.
-  - (* CtxPoll *) inversion H; subst; clear H. split; [|exact I]. apply SSame; auto.
-  - inversion H; subst; clear H. split; [|exact I]. apply SSame; auto.
+  - (* CtxPoll *) inversion H; subst; clear H. split; [|exact I]. apply SSame; auto 10.
+  - inversion H; subst; clear H. split; [|exact I]. apply SSame; auto 10.
   - (* Tick *) inversion H; subst; clear H. split; [|exact I]. apply STick; try reflexivity.
     cbn [running]. symmetry. exact Hr.
   - inversion H; subst; clear H. split; [|exact I]. apply STick; try reflexivity.
     cbn [running]. symmetry. exact Hr.
+  - (* RemoveRet *)
+    destruct ((id <=? nextID s) && negb (existsb (fun e => eid e =? id) (entries s))); [|discriminate H].
+    inversion H; subst; clear H. split; [|exact I]. apply SSame; eauto 10.
+  - destruct ((id <=? nextID s) && negb (existsb (fun e => eid e =? id) (entries s))); [|discriminate H].
+    inversion H; subst; clear H. split; [|exact I]. apply SSame; eauto 10.
+  - (* StopRet *) inversion H; subst; clear H. split; [|exact I]. apply SSame; auto 10.
 Qed.
 
 Lemma restart_eid t (e : entry) : eid (restart next t e) = eid e.
